@@ -119,7 +119,8 @@ func checkLocation(o drv.Outcome, files map[string]string, rootName string) (str
 			if o.Line != wl {
 				return "line", fmt.Sprintf("index %d is on line %d of %s, the diagnostic says line %d", o.Index, wl, filepath.Base(locName), o.Line)
 			}
-			if o.Quote != wq {
+			if o.Quote != wq && !(wq == "" && strings.Trim(o.Quote, " \t") == "") {
+				// (a line of blanks only may be quoted as it is)
 				return "quote", fmt.Sprintf("the source line at index %d is %q, the diagnostic quotes %q", o.Index, wq, o.Quote)
 			}
 		} else if o.Line < 1 {
